@@ -9,6 +9,14 @@ and evaluates sidecar contracts (precondition / postcondition against an indepen
 REAL functions of /repo, driven by exhaustive small-scope enumeration.  Nothing here is a proof; the
 numbers are reported under ``bounded`` in the evidence and never added to ``discharged``.
 """
+import os as _os
+import sys as _sys
+
+# the repository under test: /repo, or a scratch copy of it when a helper run sets VERIF_REPO; every driver imports this
+# module first, so the path is fixed before anything imports funsor
+if _os.environ.get("VERIF_REPO", "/repo") not in _sys.path[:1]:
+    _sys.path.insert(0, _os.environ.get("VERIF_REPO", "/repo"))
+
 import hashlib
 import json
 import math
